@@ -43,11 +43,24 @@ impl Classes {
     }
 }
 
-#[derive(Clone, Debug, PartialEq, Eq)]
+#[derive(Clone, PartialEq, Eq)]
 enum Outcome {
     Conflict,
     /// rendered expression (variables replaced by class representatives), partition, #judgements, #fresh variables
     Type(String, Vec<(usize, usize)>, usize, usize),
+}
+
+impl std::fmt::Debug for Outcome {
+    fn fmt(&self, f: &mut std::fmt::Formatter<'_>) -> std::fmt::Result {
+        match self {
+            Outcome::Conflict => write!(f, "conflict"),
+            Outcome::Type(e, eqs, nj, nv) => {
+                write!(f, "{e} equating {{{}}}", eqs.iter().map(|(a, b)| format!("v{a}=v{b}")).collect::<Vec<_>>().join(","))?;
+                if *nj + *nv > 0 { write!(f, " +{nj} judgements +{nv} fresh variables")?; }
+                Ok(())
+            }
+        }
+    }
 }
 
 fn id(v: TypeVariable) -> usize { v.index() }
